@@ -3,6 +3,7 @@
 package mimetype
 
 import (
+	"bytes"
 	"fmt"
 	"mime"
 	"testing"
@@ -29,6 +30,9 @@ type c11Case struct {
 	X     vfB    `json:"x"`
 	Limit uint32 `json:"limit"`
 	Via   string `json:"via"` // "plain" = charset.FromPlain(x), "detect" = Detect under Limit
+	// Markup: the generator wrapped the text in HTML or XML that declares NO encoding (no meta, no
+	// encoding pseudo-attribute, no literal "charset"/"encoding"), so the sniffing rules apply
+	Markup bool `json:"markup,omitempty"`
 }
 
 // c11ASCIIText: T-class bytes below 0x80 of the table file(1) uses: BEL BS HT LF VT FF CR ESC
@@ -149,10 +153,14 @@ func c11Check(c c11Case) vfResult {
 		if err != nil {
 			return vfFailf("result %q does not parse: %v", m.String(), err)
 		}
-		if mt != "text/plain" {
+		undeclared := (mt == "text/html" || mt == "text/xml") && c.Markup
+		if mt != "text/plain" && !undeclared {
 			r.Labels = append(r.Labels, "detect-not-plain-text")
 			r.Hash = vfHash(x, vfHashU(uint64(c.Limit)), []byte(c.Via))
 			return r
+		}
+		if undeclared {
+			r.Labels = append(r.Labels, "markup-without-declared-encoding")
 		}
 		got = params["charset"]
 	}
@@ -299,6 +307,12 @@ func c11Gen(t *rapid.T) c11Case {
 				x = append(x, byte(rapid.IntRange(0x20, 0x7e).Draw(t, "lb")))
 			}
 		}
+	}
+	if rapid.IntRange(0, 5).Draw(t, "markup") == 0 && !bytes.Contains(x, []byte("charset")) && !bytes.Contains(x, []byte("encoding")) && !bytes.Contains(x, []byte("<")) {
+		bom := rapid.SampledFrom([]string{"", "", "\xef\xbb\xbf"}).Draw(t, "mbom")
+		pre := rapid.SampledFrom([]string{"<?xml version=\"1.0\"?><a>", "<?xml version='1.0' standalone='yes'?>\n<doc>", "<html><body>", "<!DOCTYPE html><p>", " <html ><title>t</title>"}).Draw(t, "mpre")
+		mx := append([]byte(bom+pre), x...)
+		return c11Case{X: mx, Via: "detect", Limit: vfGenLimit(t, len(mx)), Markup: true}
 	}
 	c := c11Case{X: x, Via: rapid.SampledFrom([]string{"plain", "detect", "detect"}).Draw(t, "via")}
 	if c.Via == "detect" {
